@@ -253,6 +253,19 @@ theorem vmCall_spec {w : World} {tx : Tx} {snd rcv : Copy} {isFD : Bool} {base :
       · subst h; exact ⟨⟨rfl, hr1, rfl, hr2, rfl, rfl, rfl, by simp, by simp⟩, by simp⟩
       · subst h; exact ⟨⟨rfl, hr1, rfl, hr2, rfl, rfl, rfl, by simp, by simp⟩, by simp⟩
     · subst h; exact ⟨⟨rfl, hr1, rfl, hr2, rfl, rfl, rfl, by simp, by simp⟩, by simp⟩
+    · -- a Lua error after top-level writes
+      subst h
+      refine ⟨⟨rfl, hr1, rfl, hr2, ?_, ?_, rfl, by simp, ?_⟩, by simp⟩
+      · simp only []
+        split
+        · rw [acct_of_accts (write_accts _ _ _)]
+        · rfl
+      · simp only []
+        split
+        · rw [acct_of_accts (write_accts _ _ _)]
+        · rfl
+      · intro _ hl
+        simpa using hl
     · split at h
       · subst h; exact ⟨⟨rfl, hr1, rfl, hr2, rfl, rfl, rfl, by simp, by simp⟩, by simp⟩
       · rename_i sa ra w' t' hx
